@@ -55,7 +55,7 @@ Theorem C02_fragment_selected_match_partial :
   forall prog input fl o r s,
     p_op prog = make_sequence o OEnd ->
     plain (p_hasbackrefs prog) (p_maxparens prog) o ->
-    lowers (p_case prog) fl o r -> s_i fl = p_case prog -> s_m fl = p_multi prog ->
+    lowers input (p_case prog) fl o r -> s_i fl = p_case prog -> s_m fl = p_multi prog ->
     (p_hasbol prog = false /\ p_minlen prog = 0%N /\ p_prefix prog = None /\ p_icc prog = None /\ p_pre prog = []) ->
     length (sb s) = length (eb s) ->
     match matches prog input 0 s with
@@ -68,7 +68,7 @@ Proof. exact fragment_selected_match. Qed.
 (* the engine yields the end positions in the specification's priority order *)
 Theorem C02_fragment_order_partial :
   forall input ci multi hb K fl, s_i fl = ci -> s_m fl = multi ->
-    forall o, plain hb K o -> forall r, lowers ci fl o r ->
+    forall o, plain hb K o -> forall r, lowers input ci fl o r ->
       forall p e, p <= length input -> map fst (R fl input r p e) = Rop input ci multi o p.
 Proof. exact lowers_order. Qed.
 
@@ -79,7 +79,7 @@ Theorem C02_fragment_quantified_selected_match_partial :
   forall prog input fl o r s,
     p_op prog = make_sequence o OEnd ->
     plaino input (p_case prog) (p_multi prog) (p_hasbackrefs prog) (p_maxparens prog) o ->
-    lowerso (p_case prog) fl o r -> s_i fl = p_case prog -> s_m fl = p_multi prog ->
+    lowerso input (p_case prog) fl o r -> s_i fl = p_case prog -> s_m fl = p_multi prog ->
     (N.of_nat (length input) < umax)%N ->
     (p_hasbol prog = false /\ p_minlen prog = 0%N /\ p_prefix prog = None /\ p_icc prog = None /\ p_pre prog = []) ->
     length (sb s) = length (eb s) ->
@@ -97,7 +97,7 @@ Proof. exact fragmentq_selected_match. Qed.
    parsers' results are shown to enumerate, as lists, the ordered denotation DaO of the grammar tree. *)
 Theorem C02_group_grammar_selected_match_partial :
   forall xpath a fls input,
-    ok_a xpath a = true -> existsb (N.eqb 59) fls = false -> (N.of_nat (length input) < umax)%N ->
+    ok_a xpath a = true -> existsb (N.eqb 59) fls = false -> (N.of_nat (length input) < umax)%N -> valid_in input ->
     match spec_flags xpath fls with
     | Valid sf =>
         s_q sf = false -> s_x sf = false ->
@@ -117,7 +117,7 @@ Proof. exact grammar_selected_match. Qed.
    (leftmost, non-overlapping, each the selected match from the end of the previous one) *)
 Theorem C02_group_grammar_spans_partial :
   forall xpath a fls input,
-    ok_a xpath a = true -> existsb (N.eqb 59) fls = false -> (N.of_nat (length input) < umax)%N ->
+    ok_a xpath a = true -> existsb (N.eqb 59) fls = false -> (N.of_nat (length input) < umax)%N -> valid_in input ->
     match spec_flags xpath fls with
     | Valid sf =>
         s_q sf = false -> s_x sf = false ->
